@@ -431,16 +431,21 @@ inline constexpr double integrate_absolute_polynomial(double t0, double t1, doub
   // location of second zero (if any)
   double mid2 = std::numeric_limits<double>::infinity();
 
-  if (std::abs(A) < 1e-9 && std::abs(B) > 1e-9) {
-    // linear non-constant function
-    mid1 = std::clamp(-C / B, t0, t1);
-  } else if (std::abs(A) > 1e-9) {
-    // quadratic function
-    const double res = B * B / (4 * A * A) - C / A;
+  if (A == 0) {
+    // linear function (constant functions have no sign change)
+    if (B != 0) { mid1 = -C / B; }
+  } else {
+    // quadratic function: two sign changes iff the discriminant is positive
+    const double disc = B * B - 4 * A * C;
 
-    if (res > 0) {
-      mid1 = -B / (2 * A) - std::sqrt(res);
-      mid2 = -B / (2 * A) + std::sqrt(res);
+    if (disc > 0) {
+      // cancellation-free roots q / A and C / q (the second one stays accurate for tiny A)
+      const double sq = std::sqrt(disc);
+      const double q  = -(B + (B < 0 ? -sq : sq)) / 2;
+      const double r1 = q / A;
+      const double r2 = C / q;
+      mid1            = r1 < r2 ? r1 : r2;
+      mid2            = r1 < r2 ? r2 : r1;
     }
   }
 
